@@ -272,3 +272,30 @@ theorem judgeStrict_sound (c : Ctx n) (d : Dump n) (h : judgeStrict c d true = n
     simpa using h6
 
 end Balm.Impl
+
+namespace Balm.Impl
+
+open Balm
+
+variable {n : Nat}
+
+/-- **C03 (verified checker).** An `OK` of `judgeLeaves` on a dump of the real diagram proves that the
+    expanded successor-free nodes (`minimal_trap_spaces()`) are exactly the ⊆-minimal trap spaces of
+    the network inside the root space (`mem_minTrapsIn`), and that the list has no more entries than
+    distinct spaces (no duplicates). -/
+theorem judgeLeaves_sound (c : Ctx n) (d : Dump n) (h : judgeLeaves c d = none) :
+    (d.leaves.eraseDups.length = d.leaves.length) ∧ ∀ m, m ∈ d.leaves ↔ m ∈ minTrapsIn c.N c.root := by
+  unfold judgeLeaves at h
+  simp only at h
+  rw [firstSome_none] at h
+  have h1 := h (check (d.leaves.eraseDups.length == d.leaves.length) "a minimal trap space is listed twice") (by simp)
+  have h2 := h (check (d.leaves.all (minTrapsIn c.N c.root).contains) "a spurious minimal trap space is listed") (by simp)
+  have h3 := h (check ((minTrapsIn c.N c.root).all d.leaves.contains) "a minimal trap space of the network is missing") (by simp)
+  rw [check_none] at h1 h2 h3
+  refine ⟨by simpa using h1, fun m => ⟨fun hm => ?_, fun hm => ?_⟩⟩
+  · have := List.all_eq_true.1 h2 m hm
+    simpa using this
+  · have := List.all_eq_true.1 h3 m hm
+    simpa using this
+
+end Balm.Impl
